@@ -25,8 +25,9 @@ def run(ctx):
     if d is None:
         return {"coverage": {"evaluations": 0, "distinct_nontrivial": 0},
                 "violations": [{"what": "harness failed: " + err[-400:], "identity": "harness-error", "replay_payload": {"error": err}}]}
-    viol = [{"what": f"meta rule {m['rule']!r} on {m['s']!r} at {m['i']}: implementation ends {m['implementation_ends']}, "
-                     f"RFC grammar {m['rfc_grammar_text']}, model on translated table {m['model_on_translated_table']}",
+    viol = [{"what": m["what"] if "what" in m else
+                     (f"meta rule {m['rule']!r} on {m['s']!r} at {m['i']}: implementation ends {m.get('implementation_ends')}, "
+                      f"RFC grammar {m.get('rfc_grammar_text')}, model on translated table {m.get('model_on_translated_table')}"),
              "identity": f"c05:{m['rule']}:{m['s']!r}:{m['i']}", "replay_payload": dict(m, property="C05")} for m in d["mismatches"]]
     cov = {"evaluations": d["evaluations"], "distinct_nontrivial": d["distinct_nontrivial"], "samples": d["samples"], "stats": d["stats"],
            "exhaustive": True,
